@@ -204,6 +204,61 @@ fn check_counts_and_digests(ctx: &mut Ctx, e: &Envelope, t: &T) {
     } else if d32(&e.subject()) != t.digest || !e.assertions().is_empty() || e.has_assertions() {
         ctx.violation("accessors/non-node", "subject()/assertions() wrong for a non-node", replay());
     }
+    // as_* / try_* accessors
+    {
+        let lb = |x: &Envelope| x.as_leaf().map(|c| c.to_cbor_data());
+        let ok = (e.as_assertion().is_some() == (t.kind == Kind::Assertion))
+            && (e.try_assertion().is_ok() == (t.kind == Kind::Assertion))
+            && (e.as_predicate().map(|p| d32(&p)) == if t.kind == Kind::Assertion { Some(t.children[0].digest) } else { None })
+            && (e.as_object().map(|p| d32(&p)) == if t.kind == Kind::Assertion { Some(t.children[1].digest) } else { None })
+            && (e.try_predicate().is_ok() == (t.kind == Kind::Assertion))
+            && (e.try_object().is_ok() == (t.kind == Kind::Assertion))
+            && (lb(e) == if t.kind == Kind::Leaf { t.leaf.clone() } else { None })
+            && (e.try_leaf().is_ok() == (t.kind == Kind::Leaf))
+            && (e.as_known_value().map(|k| k.value()) == if t.kind == Kind::KnownValue { t.kv } else { None })
+            && (e.try_known_value().is_ok() == (t.kind == Kind::KnownValue));
+        if !ok {
+            ctx.violation("accessors/as_x", "as_* / try_* accessors disagree with the case", replay());
+        }
+        let item = t.leaf.as_ref().and_then(|l| spec::parse_item(l).ok());
+        let want_bytes = if let Some(Item::Bytes(b)) = &item { Some(b.clone()) } else { None };
+        if e.try_byte_string().ok() != want_bytes {
+            ctx.violation("accessors/try_byte_string", "try_byte_string disagrees with the leaf", replay());
+        }
+        let want_true = t.kind == Kind::Leaf && matches!(&item, Some(Item::Simple(21)));
+        let want_false = t.kind == Kind::Leaf && matches!(&item, Some(Item::Simple(20)));
+        let want_null = t.kind == Kind::Leaf && matches!(&item, Some(Item::Simple(22)));
+        let node_subject_leaf = |want: u8| -> bool {
+            let mut x = t;
+            while x.kind == Kind::Node {
+                x = &x.children[0];
+            }
+            x.kind == Kind::Leaf && matches!(x.leaf.as_ref().and_then(|l| spec::parse_item(l).ok()), Some(Item::Simple(v)) if v == want)
+        };
+        // is_true / is_false / is_null look at the subject (extract_subject semantics)
+        if e.is_true() != (want_true || (t.kind == Kind::Node && node_subject_leaf(21))) || e.is_false() != (want_false || (t.kind == Kind::Node && node_subject_leaf(20))) || e.is_null() != (want_null || (t.kind == Kind::Node && node_subject_leaf(22))) {
+            ctx.violation("accessors/is_bool_null", "is_true / is_false / is_null disagree with the subject", replay());
+        }
+        if t.kind == Kind::Assertion {
+            // (typed extraction looks through a node to its subject)
+            let chain = |mut x: &T| -> Option<Item> {
+                while x.kind == Kind::Node {
+                    x = &x.children[0];
+                }
+                x.leaf.as_ref().and_then(|l| spec::parse_item(l).ok())
+            };
+            let pi = chain(&t.children[0]);
+            let oi = chain(&t.children[1]);
+            let txt = |i: &Option<Item>| if let Some(Item::Text(s)) = i { Some(s.clone()) } else { None };
+            let sound = |r: anyhow::Result<String>, w: Option<String>, leafkind: bool| match r {
+                Ok(v) => Some(v) == w,
+                Err(_) => !(leafkind && w.is_some()),
+            };
+            if !sound(e.extract_predicate::<String>(), txt(&pi), t.children[0].kind == Kind::Leaf) || !sound(e.extract_object::<String>(), txt(&oi), t.children[1].kind == Kind::Leaf) {
+                ctx.violation("accessors/extract_predicate_object", "extract_predicate / extract_object disagree with the assertion", replay());
+            }
+        }
+    }
     let flags = (e.is_leaf(), e.is_node(), e.is_wrapped(), e.is_known_value(), e.is_assertion(), e.is_encrypted(), e.is_compressed(), e.is_elided());
     let want = (t.kind == Kind::Leaf, t.kind == Kind::Node, t.kind == Kind::Wrapped, t.kind == Kind::KnownValue, t.kind == Kind::Assertion, t.kind == Kind::Encrypted, t.kind == Kind::Compressed, t.kind == Kind::Elided);
     if flags != want {
